@@ -139,9 +139,17 @@ func parsePlugins(ifi rawInterface, maxInterval time.Duration, epoch time.Time) 
 			base = *p.Prefix
 		}
 
-		prefix, err := netip.ParsePrefix(base)
+		prefix, err := parseIPPrefix(base)
 		if err != nil {
-			return nil, err
+			return nil, fmt.Errorf("failed to parse PREF64 prefix %q: %v", base, err)
+		}
+
+		// Only the NAT64 prefix lengths from RFC 6052 Section 2.2 can be
+		// encoded in a PREF64 option.
+		switch prefix.Bits() {
+		case 32, 40, 48, 56, 64, 96:
+		default:
+			return nil, fmt.Errorf("PREF64 prefix %q must have a length of 32, 40, 48, 56, 64, or 96", base)
 		}
 
 		plugins = append(plugins, plugin.NewPREF64(prefix, maxInterval))
